@@ -202,12 +202,12 @@ class ProductErrorNode(ErrorNode):
             print(f"{indent}While parsing field '{field}':\n{indent}  ", end="", file=file)
             child.print_error(f"{indent}  ", file=file)
 
-        for field in self.missing:
+        for field in sorted(self.missing, key=str):  # sets: sort for a reproducible message
             if not isinstance(field, str):
                 field = '/'.join(field)
             print(f"{indent}  Missing required field '{field}'", file=file)
 
-        for field in self.extra:
+        for field in sorted(self.extra, key=str):
             print(f"{indent}  Unexpected field '{field}'", file=file)
 
 
